@@ -15,6 +15,51 @@ NA = {
 }
 
 CLAIMED = {
+ "C20": dict(engine="conc", cat="exploration", ref="§5.5, §6 C20",
+   technique="deterministic simulation of N caller goroutines: mode D parks workers between operations and at pool-tenancy hooks (Get / before Put / after Put) inside Serialize/Deserialize under a seeded scheduler in one synctest bubble; mode R releases seeded sets of operations together in a -race build",
+   text="Mode D decides 'each goroutine gets exactly the results it would get alone / pools never mix data' deterministically at operation and pool-tenancy granularity (a worker is suspended while it holds or has just returned a pooled codec while others run through the same pool); mode R decides 'free of data races' with the race detector over seeded sets of overlapping operations. Every operation's result is compared with the same program run alone and with the reference model.",
+   note="Go gives no control over instruction-level interleaving: inside a parallel step of mode R the overlap is real and the verdict is the race detector's happens-before analysis; mode R replays are statistical (sync.Pool drops items randomly under -race), mode D replays are exact."),
+ "C05": dict(engine="fault", cat="fault_enumeration", ref="§5.4, §6 C05",
+   technique="deterministic simulation with fault injection: enumeration of truncations / substitutions / token edits / random bytes of documents parsed from guard-paged simulator memory; large cases under seeded pipeline schedules (deadlock = no runnable token)",
+   text="Fault enumeration over stored documents: every truncation offset and a substitution alphabet at every offset for small bases (exhaustive per base), boundary-biased faults for large ones, adversarial nesting and dense structurals; each case must return (result xor error) without panic, without touching the guard pages around the input, without a stuck stage (sync-path full-channel monitor, pipeline schedules with deadlock/leak detection) and every traversal/lookup/marshal call on a result must terminate within its step cap.",
+   note="Trusted: guard pages only catch page-crossing reads (inputs are placed flush against the guard); walkers' step caps define 'terminates'; crashes on library goroutines are caught by the parent process and replayed in a fresh child."),
+ "C09": dict(engine="stream", cat="exploration", ref="§5.2, §6 C09",
+   technique="deterministic simulation: real ParseNDStream in a synctest bubble with a simulated reader (seeded fragmentation, zero reads, data+EOF, injected reader errors), seeded chunk-parser completion order, consumer and recycler; history oracles",
+   text="Seeded exploration of reader fragmentations, reader faults at drawn byte offsets, chunk-parser completion orders, consumer speeds, channel capacities, recycling policies and GOMAXPROCS for the real ParseNDStream; the recorded history must be exactly the stream's documents then one io.EOF then close (no fault), or a prefix plus the reader's error before close (fault), with deadlock/livelock/leak detection.",
+   note="Trusted: synctest quiescence; reference parser for 'the stream's documents'; the 10 MiB chunk size is shipped as is (streams > 10 MiB only in the thorough tier)."),
+ "C10": dict(engine="hist", cat="exploration", ref="§5.3, §6 C10",
+   technique="deterministic simulation of operation histories (Set*/DeleteElems/SetNull) against a reference model; marshalled text judged by an independent reference parser and encoding/json",
+   text="Seeded histories of in-place edits; after every operation the tape is marshalled from the root and from restricted inner iterators (NextElement, AdvanceIter, FindKey, Elements, Array) and the text must be valid JSON, denote the model document (order, byte-equal strings, numbers equal as the property defines) and be a fixed point of parse+marshal; non-finite floats must yield an error.",
+   note="Documents holding a negative-zero float are excluded from the fixed-point clause only (C03+C18 force '-0' to re-parse as integer 0)."),
+ "C11": dict(engine="hist", cat="exploration", ref="§5.3, §6 C11",
+   technique="deterministic simulation of Serializer histories (mode switches, reused serializers and destinations) against a reference model, plus cross-build recovery: blobs written by the asm build are deserialized by a noasm build in a fresh process",
+   text="Seeded histories over 1-3 reused Serializers and reused destinations, all four modes on either side, fresh / NDJSON / edited / deleted-member tapes incl. overflow-flag floats and multi-generation round trips; every deserialized tape must expose the model document with exact number types and flags and obey the tape format; a sample of blobs is re-read by the noasm build.",
+   note="String dedup depends on the process-random hash seed: blob bytes are never compared, only what they deserialize to."),
+ "C13": dict(engine="hist", cat="exploration", ref="§5.3, §6 C13",
+   technique="deterministic simulation of Set* histories (allowed and disallowed calls as fault operations) against a reference model with a full read-back battery after every step",
+   text="Seeded histories of 1-12 Set* calls at drawn positions (any depth, containers for SetNull), repeated replacement with other types and sizes, both string modes; after each operation eight independent read paths (flat walk, Advance, AdvanceIter/Object.Parse, ForEach, Interface, FindKey/FindPath/FindElement, MarshalJSON, serialize round trip) must expose the model in which exactly that position changed; disallowed calls must fail and change nothing.",
+   note="Navigation to the edited position itself uses two independent API paths (flat AdvanceInto walk / user-style API descent)."),
+ "C14": dict(engine="hist", cat="exploration", ref="§5.3, §6 C14",
+   technique="deterministic simulation of deletion histories: every member subset for containers of <= 6 members (drawn mask), fn/onlyKeys/nil modes, followed by further deletions and replacements; callbacks and all listed read APIs compared with a reference model",
+   text="Seeded histories of Object/Array DeleteElems with drawn member subsets (mask over all subsets for small containers), with fn, onlyKeys, both or nil, nested containers, then further deletions and Set*; callbacks must visit each member once in order with its own key/value and afterwards every API the property lists must expose the model document.",
+   note="Key filters are only used on objects with unique keys (the property's own restriction)."),
+ "C15": dict(engine="hist+pipe", cat="exploration", ref="§5.3, §6 C15",
+   technique="deterministic simulation of call histories on reused ParsedJson/Serializer/destination objects, the whole history inside one synctest bubble under a seeded pipeline schedule; differential against the reference verdict/model of a fresh call",
+   text="Seeded histories of Parse/ParseND (valid, stage-1-failing, stage-2-failing, both sides of 8 KiB, either string mode) with reuse of objects whose past includes successes, failures, edits, clones and deserializations, plus Deserialize into reused destinations and Serializers across mode changes; every call's outcome and exposed document must equal what the same call gives on fresh objects; ring monitors stay armed.",
+   note="Channel residue after a failed call is recorded as a probe, not an oracle (lazy draining would be legal)."),
+ "C16": dict(engine="hist+stream", cat="exploration", ref="§5.3, §5.2, §6 C16",
+   technique="deterministic simulation with fault injection on the caller's buffer: scribble/recycle the input at a drawn instant, clone and edit, read back against the model; ParseNDStream values held across pool recycling re-verified",
+   text="Seeded histories: parse from simulator-owned memory, overwrite or reuse that memory at a drawn later instant (zeros, random, shift, another document), clone (nil or reused destination), edit original and clones; default mode must be unaffected by the overwrite, no-copy mode must equal the model while the buffer is intact, clones and originals must stay equal to their own models; values delivered by ParseNDStream and held by the consumer must be unchanged at the end of the run after later chunks recycled pool buffers.",
+   note="With copying disabled and the buffer overwritten nothing is claimed (the object is dropped from the oracle)."),
+ "C17": dict(engine="pipe+stream+hist", cat="exploration", ref="§4, §6 C17",
+   technique="invariant monitoring in deterministic simulation: an executable statement of the documented tape format checked on every tape produced under pipeline schedules, by ParseNDStream chunk parsers and by Deserialize of fresh/edited tapes into fresh/reused destinations",
+   text="The tape-format invariant (root pairs, matching and nested scopes, string flag/offset/length in range, two-word numbers, no undocumented tags, NOP runs landing on the next live entry for deserialized tapes) is the only alarm-raising oracle of a mixed batch of the pipe, stream and history engines.",
+   note="Coverage of input shapes is whatever the workloads generate; the invariant checker is written from README/property text."),
+ "C19": dict(engine="fault", cat="fault_enumeration", ref="§5.4, §6 C19",
+   technique="deterministic fault injection on stored bytes: exhaustive truncations / single-bit flips / byte substitutions of small blobs in all four modes, framing-aware tag/value/varint/block-type edits via an independent framing walker (decompress-mutate-recompress), splices, random bytes, double faults",
+   text="Fault enumeration over serialized blobs: for every base blob one fault plan is run to completion (every truncation length, every single-bit flip, or a substitution alphabet at every offset for small blobs; framing-aware edits that keep the container intact; section splices of two blobs; random bytes; sampled double faults). Deserialize (fresh or stale reused destination, any reader mode) must return error or result without panic, and every traversal/marshal/lookup/bulk accessor on a result must terminate without panic.",
+   note="Blobs whose declared sizes (container varints, zstd frame content/window size) exceed 16 MiB are excluded by the independent framing walker, as the property allows, and counted."),
+
  "C07": dict(engine="pipe", cat="exploration", ref="§5.1, §6 C07",
    technique="deterministic simulation: seeded cooperative scheduling of the stage-1 producer and stage-2 consumer at hand-off hooks (testing/synctest quiescence), ring monitors + reference model",
    text="Seeded exploration of producer/consumer interleavings of the real two-stage pipeline over its 16-slot ring and bounded channel: every execution is one seed; monitors state the property (no slot acquired while in flight or held, FIFO hand-off with stable content, one terminator sent last, termination, no goroutine left) and the outcome is compared with an independent reference parser and with a free-running execution. Sampling, not proof: it reaches the lagging-consumer/lagging-producer schedules the Go runtime almost never produces.",
